@@ -2,7 +2,7 @@
 import json, os, sys, time
 
 VERIF = os.path.dirname(os.path.dirname(os.path.abspath(__file__)))
-EVID = os.path.join(VERIF, "evidence")
+EVID = os.environ.get("VERIF_EVIDENCE_DIR") or os.path.join(VERIF, "evidence")  # seeded-mutant runs redirect their evidence
 REPLAY = os.path.join(EVID, "replay")
 
 
